@@ -5,6 +5,7 @@ import (
 	"errors"
 	"io"
 	"math/rand"
+	"runtime"
 )
 
 var ErrInjectedRead = errors.New("injected read failure")
@@ -161,4 +162,13 @@ func (f *FailingReader) Read(p []byte) (int, error) {
 		return n, e
 	}
 	return n, nil
+}
+
+// Yielding hands the processor to other goroutines before every Read (a source on which the caller
+// blocks, like a file or a socket, does the same).
+type Yielding struct{ R io.Reader }
+
+func (y Yielding) Read(p []byte) (int, error) {
+	runtime.Gosched()
+	return y.R.Read(p)
 }
